@@ -41,6 +41,8 @@ func init() {
 	hio.Register((*Tagged)(nil))
 	hio.Register((*Derived)(nil))
 	hio.Register((*Deep)(nil))
+	hio.Register((*OneMap)(nil))
+	hio.Register((*Ünï)(nil))
 	hio.Register((*Widths)(nil))
 	hio.Register((*Node2)(nil))
 }
@@ -100,6 +102,38 @@ type Deep struct {
 	P *int
 	Mid
 	L []string
+}
+
+// hidden is an unexported struct type; embedded, its exported fields are promoted.
+type hidden struct {
+	H int
+	S string
+}
+
+// WithHidden embeds an unexported struct type between fields of its own, and has an unexported field.
+type WithHidden struct {
+	A int
+	hidden
+	skipped int
+	B       string
+}
+
+// single-field structs: held by value in an interface, a struct whose only field is pointer-shaped (pointer,
+// map, one-element array of a pointer, a struct of that kind) is stored in the interface word itself
+type OnePtr struct{ P *int }
+type OneMap struct{ M map[string]int }
+type OneArr struct{ A [1]*int }
+type OneOne struct{ O OneMap }
+type OneSlice struct{ S []int }
+type OneIface struct{ I interface{} }
+type OneStr struct{ S string }
+
+// Ünï has a non-ASCII name and non-ASCII, astral and multi-byte field names and aliases.
+type Ünï struct {
+	Ключ  int    `hprose:"ключ"`
+	A名    string `hprose:"名前"`
+	Smile bool   `hprose:"s\U0001F600e"`
+	Ünï   *Ünï
 }
 
 // Extra is embedded by pointer.
@@ -314,6 +348,11 @@ func timeVals() []time.Time {
 			}
 		}
 	}
+	// the first second of a day with a fraction: neither the date-only nor (1970) the bare form
+	for _, ns := range []int{500000000, 1} {
+		out = append(out, time.Date(2021, 3, 4, 0, 0, 0, ns, time.UTC), time.Date(1970, 1, 1, 0, 0, 0, ns, time.UTC),
+			time.Date(2021, 3, 4, 0, 0, 0, ns, time.Local), time.Date(2021, 3, 4, 0, 0, 59, ns, time.UTC))
+	}
 	return out
 }
 
@@ -324,6 +363,9 @@ func timeClass(i int) string {
 		return timeClasses[i]
 	}
 	i -= len(timeClasses)
+	if i >= 20 {
+		return fmt.Sprintf("midnight+fraction%d", i-20)
+	}
 	return []string{"1970-time", "datetime"}[i/10] + []string{"", "+ms", "+us", "+ns", "+1ns"}[i%10/2] + []string{"-utc", "-local"}[i%2]
 }
 
@@ -568,6 +610,24 @@ func Fixed() []Gen {
 		{Name: "Specials", T: reflect.TypeOf(Specials{}), Vals: []Val{val(Specials{}, "zero"),
 			val(Specials{tm, &tm, uu, &uu, big.NewInt(5), big.NewFloat(1.5), big.NewRat(1, 3), []byte("ab"), complex64(complex(1, 0)), complex(1.5, 0), &c, "any", l}, "filled")}, Leaf: "struct"},
 	}
+	seven := 7
+	st := func(name string, zero interface{}, filled ...interface{}) {
+		g := Gen{Name: name, T: reflect.TypeOf(zero), Vals: []Val{val(zero, "zero")}, Leaf: "struct"}
+		for i, f := range filled {
+			g.Vals = append(g.Vals, val(f, fmt.Sprintf("filled%d", i)))
+		}
+		out = append(out, g)
+	}
+	st("WithHidden", WithHidden{}, WithHidden{1, hidden{2, "hs"}, 3, "b"})
+	st("OnePtr", OnePtr{}, OnePtr{&seven})
+	st("OneMap", OneMap{}, OneMap{map[string]int{}}, OneMap{map[string]int{"k": 1, "l": 2}})
+	st("OneArr", OneArr{}, OneArr{[1]*int{&seven}})
+	st("OneOne", OneOne{}, OneOne{OneMap{map[string]int{"k": 1}}})
+	st("OneSlice", OneSlice{}, OneSlice{[]int{}}, OneSlice{[]int{1, 2}})
+	st("OneIface", OneIface{}, OneIface{"x"}, OneIface{&seven}, OneIface{OneMap{map[string]int{"k": 1}}})
+	st("OneStr", OneStr{}, OneStr{"x"})
+	uni := &Ünï{Ключ: 1, A名: "値", Smile: true}
+	st("Ünï", Ünï{}, Ünï{Ключ: 2, A名: "\U0001F600", Smile: false, Ünï: uni})
 	for i := range out {
 		out[i].Depth = 1
 	}
